@@ -44,6 +44,9 @@ class Evaluator:
         self.namespace = namespace \
             if namespace is not None else xl.FUNCTIONS.copy()
         self.cache_count = 0
+        # Addresses of the formula cells whose evaluation is in progress,
+        # outermost first.
+        self._in_progress = []
 
     def _get_context(self, ref):
         return EvaluatorContext(self, ref)
@@ -88,6 +91,12 @@ class Evaluator:
         #    (Note: Range nodes will automatically evaluate all their
         #           dependencies.)
         context = context if context is not None else self._get_context(addr)
+        if addr in self._in_progress:
+            # The cell depends on itself.
+            raise RuntimeError(
+                f'Cycle detected for {addr}:\n- '
+                + '\n- '.join(self._in_progress))
+        self._in_progress.append(addr)
         try:
             value = cell.formula.ast.eval(context)
         except Exception as err:
@@ -95,6 +104,8 @@ class Evaluator:
                 f"Problem evaluating cell {addr} formula "
                 f"{cell.formula.formula}: {repr(err)}"
             ).with_traceback(sys.exc_info()[2])
+        finally:
+            self._in_progress.pop()
 
         # 4. Update the cell value.
         #    Note for later: If an array is returned, we should distribute the
